@@ -6,7 +6,7 @@ From Coq Require Import List NArith Bool Lia Arith String Ascii.
 From NV Require Import Lib.Res FatAlloc.Model FatAlloc.ProofsBase.
 From NV Require Import FatVol.Model FatVol.ProofsBase FatVol.ProofsFat FatVol.ProofsInv FatVol.ProofsWalk FatVol.ProofsOps
      FatVol.ProofsFileOp FatVol.Proofs FatVol.ProofsEx.
-From NV Require Import FatCrash.Model FatCrash.ProofsOps FatCrash.Proofs.
+From NV Require Import FatCrash.Model FatCrash.Clean FatCrash.ProofsOps FatCrash.Proofs.
 Import ListNotations.
 Open Scope N_scope.
 
@@ -85,15 +85,19 @@ Proof.
   { unfold Tk. vm_compute. intros [H|[H|[]]]; inversion H. }
   assert (Nd : ~ Tk up s_pop o_ren 0 (nm "D")).
   { unfold Tk. vm_compute. intros [H|[H|[]]]; inversion H. }
-  assert (Ia : In e_a (lives_of s_pop 0)) by (vm_compute; auto).
-  assert (If : In e_f (lives_of s_pop 9)) by (vm_compute; auto).
-  destruct (C 0 e_a Ia eq_refl Na) as (Ca & Ta). destruct (C 9 e_f If eq_refl Nf) as (Cf & Tf).
+  assert (Ia : In e_a (lives_of s_pop 0)) by (vm_compute; left; reflexivity).
+  assert (If : In e_f (lives_of s_pop 9)) by (vm_compute; left; reflexivity).
+  assert (Da : is_dir e_a = false) by reflexivity. assert (Df : is_dir e_f = false) by reflexivity.
+  destruct (C 0 e_a Ia Da Na) as (Ca & Ta). destruct (C 9 e_f If Df Nf) as (Cf & Tf).
   split; [apply (L 0 (up n_a) e_a); [vm_compute; reflexivity|exact Na]|].
   split; [apply (L 0 (nm "A.TXT") e_a); [vm_compute; reflexivity|exact Na]|].
   split; [apply (L 9 (up n_f) e_f); [vm_compute; reflexivity|exact Nf]|].
+  assert (E3 : chain_of V0 (v_fat s_pop) (e_clu e_a) = [3]) by (vm_compute; reflexivity).
+  assert (E10 : chain_of V0 (v_fat s_pop) (e_clu e_f) = [10]) by (vm_compute; reflexivity).
+  rewrite E3 in Ca. rewrite E10 in Cf.
   split; [exact Ca|]. split; [exact Cf|].
-  split; [apply (Ta 3); vm_compute; auto|]. split; [apply (Tf 10); vm_compute; auto|].
-  fold sn. rewrite (bystander_paths_resolve up V0 V0_wf s_pop o_ren n [n_d; n_f] s_pop_inv o_ren_guard); [vm_compute; reflexivity|].
+  split; [apply (Ta 3); left; reflexivity|]. split; [apply (Tf 10); left; reflexivity|].
+  unfold sn. rewrite (bystander_paths_resolve up V0 V0_wf s_pop o_ren n [n_d; n_f] s_pop_inv o_ren_guard); [vm_compute; reflexivity|].
   cbn [avoids]. split; [reflexivity|]. eexists. split; [vm_compute; reflexivity|]. split; [exact Nd|].
   split; [reflexivity|]. eexists. split; [vm_compute; reflexivity|]. split; [exact Nf|exact I].
 Qed.
@@ -109,5 +113,24 @@ Example FC_append_on_dead_slots :
   let e := {| e_name := n_long2; e_alias := nm "SECOND~1.TXT"; e_attr := 32; e_size := 0; e_clu := 0; e_nlfn := 2 |} in
   [MTail 0 1 [Dead; Dead; Live (short_of e)]; MTail 0 1 [Live e]; MUpd 0 (nm "SECOND~1.TXT") 32 0 0].
 Proof. vm_compute. reflexivity. Qed.
+
+
+(* _clean_entries() record by record: a directory [deleted record; entry e with two long-name records]
+   is compacted (because another name is created in it): after the SECOND store e is listed under
+   its 8.3 name only -- a look-up by its long name fails at that crash point -- after the THIRD it is
+   listed twice; its alias, size and first cluster are there at every point (clean_view_bound) *)
+Definition e_long : entry :=
+  {| e_name := n_long1; e_alias := nm "FIRSTL~1.TXT"; e_attr := 32; e_size := 700; e_clu := 5; e_nlfn := 2 |}.
+Example FC_compaction_views :
+  clean_views [Dead; Live e_long] =
+  [ [Dead; Live e_long];                                   (* the "last" long-name record copied down *)
+    [Dead; Dead; Dead; Live (short_of e_long)];            (* second long-name record copied over the first's original *)
+    [Live e_long; Live (short_of e_long)];                 (* 8.3 record copied: the group is complete, its original still follows *)
+    [Live e_long] ].                                       (* end record written behind it *)
+Proof. vm_compute. reflexivity. Qed.
+Example FC_compaction_long_name_hidden :
+  let v := nth 1 (clean_views [Dead; Live e_long]) [] in
+  lookup up (up n_long1) v = None /\ lookup up (nm "FIRSTL~1.TXT") v = Some (short_of e_long).
+Proof. vm_compute. split; reflexivity. Qed.
 
 Print Assumptions FC_rename_bystanders.
